@@ -15,9 +15,9 @@ ALPHA = 1e-6
 
 def histories(rng, tier):
     hs = []
-    shots = 4000 if tier == "quick" else 100000
+    shots = 4000 if tier == "quick" else 25000
     for n in range(1, 5):
-        for rep in range(3 if tier == "quick" else 10):
+        for rep in range(3 if tier == "quick" else 6):
             base = prep(rng, n) if rng.random() < 0.6 else [("raw", n, rand_small_state(rng, n))]
             full = (1 << n) - 1
             m1 = rng.randrange(1, 1 << n); m2 = rng.randrange(1, 1 << n)
@@ -156,6 +156,6 @@ if __name__ == "__main__":
                    "states prepared by circuits on 1..4 qubits (single- and 4-thread registers): reported probabilities vs model, "
                    "measure_mask frequencies over %d fresh clones (full mask, partial mask, two masks in both orders) by chi-square at "
                    "1e-6, sample_all(100000) means and spreads over repeated draws; Sampler.v against rand::WeightedIndex on scripted "
-                   "draws (valid weights away from boundaries, all-zero / negative / NaN weights)" % (4000 if tier == "quick" else 100000),
+                   "draws (valid weights away from boundaries, all-zero / negative / NaN weights)" % (4000 if tier == "quick" else 25000),
                    assumptions=["statistical verdicts are reproducible for a given VERIF_SEED (seedable RNG hook); they support but do "
                                 "not prove the distributional claim: uniformity of thread_rng and normality of StandardNormal are trusted"])
